@@ -60,3 +60,13 @@ Theorem C07_name_pressure_refuted :
                 forall e, In e (res_errs (build_schemas g)) -> er_unit e <> n_ref n /\ ~ In (n_ref n) (er_removed e).
 Proof. exact name_pressure_refuted. Qed.
 Print Assumptions C07_name_pressure_refuted.
+
+(* the code's tag selection is never empty, so an operation that declares no tags (or an empty list) is still filed somewhere *)
+Theorem C07_ops_filed_somewhere : forall ops o all_tags raw, In o ops -> o_tags o = sel_tags all_tags raw ->
+  exists t c, In t (o_tags o) /\ find_col (collections ops) t = Some c /\
+    match parse_operation o with
+    | Some ep => In ep (c_endpoints c)
+    | None => In (o_key o, mkW 1 (o_key o)) (c_errors c)
+    end.
+Proof. exact ops_filed_somewhere. Qed.
+Print Assumptions C07_ops_filed_somewhere.
